@@ -125,6 +125,21 @@ func (ex *Exec) callExternal(fn *ssa.Function, args []Val) Val {
 
 func (ex *Exec) initExternalGlobals(p *ssa.Package) {
 	// selected dependency globals that repo code reads
+	// registered error values of dependency packages that repo code returns (their package
+	// initialisers are not run): every exported package-level *errors.Error variable gets a
+	// distinct root identity
+	switch p.Pkg.Path() {
+	case "github.com/cosmos/cosmos-sdk/x/gov/types", "github.com/cosmos/cosmos-sdk/types/errors":
+		for name, m := range p.Members {
+			g, ok := m.(*ssa.Global)
+			if !ok || !strings.HasPrefix(name, "Err") {
+				continue
+			}
+			if pt, ok := g.Type().(*types.Pointer); ok && typeKey(pt.Elem()) == "*cosmossdk.io/errors.Error" || ok && strings.HasSuffix(pt.Elem().String(), "cosmossdk.io/errors.Error") {
+				ex.globals[g].V = PtrV{C: ex.newCell(&ErrV{Root: p.Pkg.Path() + "." + name, Msg: name})}
+			}
+		}
+	}
 	switch p.Pkg.Path() {
 	case "github.com/cosmos/ibc-go/v7/modules/core/02-client/types":
 		// var IsRevisionFormat = regexp.MustCompile(`^.*[^\n-]-{1}[1-9][0-9]*$`).MatchString
